@@ -110,7 +110,10 @@ class Check:
         uniq = {}
         for v in new_v:
             uniq.setdefault(v["key"], v)
-        for k, v in sorted(uniq.items()):
+        for n, (k, v) in enumerate(sorted(uniq.items())):
+            if n >= 25:
+                print("... %d further violations not written out" % (len(uniq) - 25))
+                break
             path = self.write_replay(v)
             print("VIOLATION property=%s replay=%s" % (self.pid, path))
             print("  " + v["text"][:600])
